@@ -63,6 +63,17 @@ def check_post(case):
                 out.fail("post_process_raised:%s" % type(e).__name__, "%s post-processing %r raised %s: %s at x=%r T=%r (stable phases %r, database phase order %r)" % (post, arg, type(e).__name__, e, x, T, names, th.phases), single=len(names) == 1)
                 return out
             results.append(np.asarray(r, dtype=float))
+        # the cache must not remember the post-processing: the same point under a different mode, through the same table
+        if case["shared_cache"]:
+            other = "none" if post != "none" else "majority"
+            hp2 = HP.HomogenizationParameters(case["rule"], labyrinthFactor=case["lab"], postProcessFunction=other, postProcessArgs=None)
+            r2, _ = HP.computeHomogenizationFunction(th, x, T, hp2, shared)
+            exp2 = _ref(mob0, names, fr0, case["rule"], case["lab"], other, None)
+            if np.shape(r2) != np.shape(exp2) or not np.allclose(np.asarray(r2, dtype=float), exp2, rtol=1e-6, atol=0, equal_nan=True):
+                out.fail("cache_remembers_postprocessing", "x=%r T=%r: after evaluating with %s(%r), the same point with post-processing %r through the same cache gives %r, cache-free reference %r" % (x, T, post, arg, other, np.asarray(r2).tolist(), exp2.tolist()))
+            md2 = computeMobility(th, x, T, shared)
+            if not np.allclose(np.asarray(md2.phase_fractions[0], dtype=float), fr0, rtol=1e-9, atol=0) or not np.array_equal(np.asarray(md2.mobility[0]), mob0):
+                out.fail("cached_data_modified", "x=%r T=%r: per-phase data read back through the cache after %s(%r): fractions %r / uncached %r" % (x, T, post, arg, np.asarray(md2.phase_fractions[0]).tolist(), fr0.tolist()))
     finally:
         sys.stdout = so
     for k, r in enumerate(results):
@@ -96,7 +107,7 @@ def _post_case(draw):
         arg = draw(st.sampled_from(phases))
     elif post == "exclude":
         arg = draw(st.lists(st.sampled_from(phases), min_size=1, max_size=2, unique=True))
-    return {"db": db, "x": x, "T": T, "rule": draw(st.sampled_from(RULES)), "lab": draw(st.sampled_from([1.0, 1.5, 2.0])), "post": post, "post_arg": arg, "shared_cache": draw(st.booleans())}
+    return {"db": db, "x": x, "T": T, "rule": draw(st.sampled_from(RULES)), "lab": draw(st.sampled_from([1.0, 1.5, 2.0])), "post": post, "post_arg": arg, "shared_cache": draw(st.sampled_from([True, True, False]))}
 
 
 def clauses():
